@@ -31,6 +31,11 @@ package mat
 // documentation for Condition for more information.
 func (m *Dense) Solve(a, b Matrix) error {
 	aU, aTrans := untransposeExtract(a)
+	bU, _ := untransposeExtract(b)
+	// The factorizations below work on copies of a, and some of the
+	// SolveTo methods do not check b, so check the receiver here.
+	m.checkOverlapMatrix(aU)
+	m.checkOverlapMatrix(bU)
 	if a, ok := aU.(SolveToer); ok {
 		return a.SolveTo(m, aTrans, b)
 	}
@@ -119,10 +124,25 @@ func (v *VecDense) SolveVec(a Matrix, b Vector) error {
 			b := VecDense{mat: bmat}
 			bm = b.asDense()
 		}
-		return m.Solve(a, bm)
+		return m.Solve(v.asSolveMatrix(a, m), bm)
 	}
 
 	v.reuseAsNonZeroed(c)
 	m := v.asDense()
-	return m.Solve(a, b)
+	return m.Solve(v.asSolveMatrix(a, m), b)
+}
+
+// asSolveMatrix returns a, unless a is v or the transpose of v, in which
+// case it returns m, the Dense representation of v, or its transpose. Like
+// for b in SolveVec, this prevents the overlap detection code from
+// identifying m and a as overlapping but not identical.
+func (v *VecDense) asSolveMatrix(a Matrix, m *Dense) Matrix {
+	aU, trans := untranspose(a)
+	if aU != Matrix(v) {
+		return a
+	}
+	if trans {
+		return m.T()
+	}
+	return m
 }
